@@ -210,7 +210,7 @@ def check(run):
     engines.r2_writer_table(run, src_field, {sp.norm: 'advanced by the payload size', T + '::async_connect': 'reset', T + '::internal_connect': 'reset', T + '::close': 'reset', T + '::socket': 'move'} if not src_field.startswith(CH) else {sp.norm: 'advanced by the payload size'}, required=[sp.norm])
     adv = [a for a in q.field_accesses(sp, {src_field}) if a.kind == 'compound']
     oks = len(stamp) == 1 and len(adv) == 1 and q.precedes(sp, stamp[0].site, adv[0].site) and \
-        adv[0].method == '+=' and 'p.buffer.size()' in q.render(sp, adv[0].site['rhs']) and q.render(sp, adv[0].site['lhs']) == q.render(sp, stamp[0].site['rhs'])
+        adv[0].method == '+=' and q.linform(sp, adv[0].site['rhs'], q.const_local_subst(sp)) == ({'p.buffer.size()': 1}, 0) and q.render(sp, adv[0].site['lhs']) == q.render(sp, stamp[0].site['rhs'])
     run.check(oks, 'R4', 'stamp-before-advance', sp.norm, sp.loc(), 'the sequence number is not bytes_sent[idx] sampled before bytes_sent[idx] += payload size', 'stamped, then advanced by p.buffer.size()')
     run.check(bool(adv) and q.on_all_paths(sp, [a.site for a in adv]), 'R4', 'every-transmission-counted', sp.norm, sp.loc(),
               'the byte counter is advanced only on some paths through send_packet (e.g. only while a capture is active): a capture enabled after the connection has carried data numbers its records from 0 instead of from the bytes already transmitted',
